@@ -36,7 +36,7 @@ func c09CallSites(p *Prog, g *ssa.Function) (sites []ssa.CallInstruction, closed
 		if fnPkgPath(f) != fnPkgPath(g) || len(f.Blocks) == 0 {
 			continue
 		}
-		if f.Synthetic != "" && !strings.HasPrefix(f.Synthetic, "instance of") {
+		if !c09IsSourceFn(f) {
 			continue // promoted-method wrappers, bound-method thunks: not source call sites
 		}
 		AllInstrs(f, func(in ssa.Instruction) {
@@ -90,26 +90,45 @@ func c09ParamOf(v ssa.Value) (*ssa.Function, int) {
 // function all of whose call sites are known, it is replaced by the values
 // passed at those call sites (not above `stop`).  ok is false if some origin cannot be resolved.
 func c09Origins(p *Prog, v ssa.Value, depth int, stop *ssa.Function) (vals []ssa.Value, ok bool) {
+	// a captured variable: the value of the enclosing function's cell
+	if r := c09Resolved(v); r != nil && r != v {
+		if in, isIn := r.(ssa.Instruction); !isIn || in.Parent() != c09ParentOf(v) {
+			return c09Origins(p, r, depth, stop)
+		}
+	}
 	fn, idx := c09ParamOf(v)
 	if fn == nil || fn == stop {
 		return []ssa.Value{v}, true
 	}
-	sites, closed := c09CallSites(p, fn)
+	sites, closed := c09SitesOf(p, fn)
 	if !closed || len(sites) == 0 || depth <= 0 {
 		return []ssa.Value{v}, true // an external input: the parameter itself is the origin
 	}
+	prm := fn.Params[idx]
 	for _, cs := range sites {
-		args := cs.Common().Args
-		if idx >= len(args) {
+		w := cs.Tr(prm)
+		if w == nil {
 			return nil, false
 		}
-		sub, ok := c09Origins(p, args[idx], depth-1, stop)
+		sub, ok := c09Origins(p, w, depth-1, stop)
 		if !ok {
 			return nil, false
 		}
 		vals = append(vals, sub...)
 	}
 	return vals, true
+}
+
+func c09ParentOf(v ssa.Value) *ssa.Function {
+	switch u := v.(type) {
+	case ssa.Instruction:
+		return u.Parent()
+	case *ssa.Parameter:
+		return u.Parent()
+	case *ssa.FreeVar:
+		return u.Parent()
+	}
+	return nil
 }
 
 // c09Vals names the values a guard is about (e.g. "alg", "set"), expressed in
@@ -130,22 +149,21 @@ func c09GuardedUp(p *Prog, at ssa.Instruction, vals c09Vals, find func(fn *ssa.F
 	if depth <= 0 {
 		return false
 	}
-	sites, closed := c09CallSites(p, fn)
+	sites, closed := c09SitesOf(p, fn)
 	if !closed || len(sites) == 0 {
 		return false
 	}
 	for _, cs := range sites {
-		if _, isGo := cs.(*ssa.Go); isGo {
+		if _, isGo := cs.At.(*ssa.Go); isGo {
 			return false
 		}
 		nv := c09Vals{}
 		for role, v := range vals {
-			pf, idx := c09ParamOf(v)
-			if pf == fn && idx < len(cs.Common().Args) {
-				nv[role] = cs.Common().Args[idx]
+			if w := cs.Tr(v); w != nil {
+				nv[role] = w
 			}
 		}
-		if !c09GuardedUp(p, cs.(ssa.Instruction), nv, find, depth-1) {
+		if !c09GuardedUp(p, cs.At, nv, find, depth-1) {
 			return false
 		}
 	}
@@ -265,18 +283,9 @@ func c09EffectSites(fn *ssa.Function, bind c09Bind, isEffect func(call ssa.CallI
 		if g == nil || depth <= 0 || len(g.Blocks) == 0 || fnPkgPath(g) != fnPkgPath(fn) || g == fn {
 			continue
 		}
-		args := call.Common().Args
-		gb := func(v ssa.Value) ssa.Value {
-			if v == nil {
-				return nil
-			}
-			if pf, i := c09ParamOf(v); pf == g && i < len(args) {
-				return bind(args[i])
-			}
-			return nil
-		}
+		gb := c09HelperBind(call, g, bind)
 		inner := c09EffectSites(g, gb, isEffect, depth-1)
-		if len(inner) > 0 && c09NilReturnsPass(g, inner) {
+		if len(inner) > 0 && c09NilReturnsPassNE(g, inner, c09NonEmptyParams(call, g)) {
 			out = append(out, call.(ssa.Instruction))
 		}
 	}
@@ -300,6 +309,139 @@ func c09MayBeNilAtom(g *ssa.Function, a RetAtom) bool {
 		return false
 	}
 	return true
+}
+
+// c09HelperBind translates values of helper g's frame into the frame of its
+// call: parameters -> arguments; a field read through a pointer parameter
+// (r.tagResolver with r = &rebuilt) -> the value stored in that field of the
+// caller's struct; an element of a variadic/slice parameter -> the single
+// element of the literal slice passed.
+func c09HelperBind(call ssa.CallInstruction, g *ssa.Function, outer c09Bind) c09Bind {
+	args := call.Common().Args
+	return func(v ssa.Value) ssa.Value {
+		if v == nil {
+			return nil
+		}
+		if pf, i := c09ParamOf(v); pf == g && i < len(args) {
+			return outer(args[i])
+		}
+		ld, ok := strip(c09Resolved(v)).(*ssa.UnOp)
+		if !ok || ld.Op != token.MUL {
+			return nil
+		}
+		switch a := ld.X.(type) {
+		case *ssa.FieldAddr:
+			if pf, i := c09ParamOf(a.X); pf == g && i < len(args) {
+				if w := c09FieldValue(args[i], a.Field); w != nil {
+					return outer(w)
+				}
+			}
+		case *ssa.IndexAddr:
+			if pf, i := c09ParamOf(a.X); pf == g && i < len(args) {
+				if elems := c09LiteralElems(args[i]); len(elems) == 1 {
+					return outer(elems[0])
+				}
+			}
+		}
+		return nil
+	}
+}
+
+// c09FieldValue: base is (a pointer to) a local struct; the value of its field
+// #field when it is assigned exactly once.
+func c09FieldValue(base ssa.Value, field int) ssa.Value {
+	rb := c09Resolved(base)
+	for depth := 0; depth < 3; depth++ { // a struct captured by a closure: the cell of the enclosing function
+		fv, isFV := rb.(*ssa.FreeVar)
+		if !isFV {
+			break
+		}
+		bs := freeVarBindings(fv)
+		if len(bs) != 1 {
+			return nil
+		}
+		rb = bs[0]
+	}
+	a, ok := rb.(*ssa.Alloc)
+	if !ok || len(storesTo(a)) > 0 {
+		return nil // only structs built field by field (composite literals), never assigned as a whole
+	}
+	var val ssa.Value
+	n := 0
+	for _, ref := range *a.Referrers() {
+		if fa, ok := ref.(*ssa.FieldAddr); ok && fa.Field == field {
+			for _, r2 := range *fa.Referrers() {
+				if st, ok := r2.(*ssa.Store); ok && st.Addr == ssa.Value(fa) {
+					val = st.Val
+					n++
+				}
+			}
+		}
+	}
+	if n != 1 {
+		return nil
+	}
+	return val
+}
+
+// c09LiteralElems: the elements of a slice literal / variadic argument list.
+func c09LiteralElems(v ssa.Value) []ssa.Value {
+	sl, ok := v.(*ssa.Slice)
+	if !ok {
+		return nil
+	}
+	arr, ok := sl.X.(*ssa.Alloc)
+	if !ok {
+		return nil
+	}
+	var out []ssa.Value
+	for _, ref := range *arr.Referrers() {
+		if ia, ok := ref.(*ssa.IndexAddr); ok {
+			for _, r2 := range *ia.Referrers() {
+				if st, ok := r2.(*ssa.Store); ok && st.Addr == ssa.Value(ia) {
+					out = append(out, st.Val)
+				}
+			}
+		}
+	}
+	return out
+}
+
+// c09NonEmptyParams: slice parameters of g that receive a non-empty literal at this call.
+func c09NonEmptyParams(call ssa.CallInstruction, g *ssa.Function) map[*ssa.Parameter]bool {
+	out := map[*ssa.Parameter]bool{}
+	for i, a := range call.Common().Args {
+		if i < len(g.Params) && len(c09LiteralElems(a)) > 0 {
+			out[g.Params[i]] = true
+		}
+	}
+	return out
+}
+
+// c09NilReturnsPassNE = c09NilReturnsPass, where a range loop over a parameter
+// known to be non-empty, every iteration of which executes one of the
+// instructions, counts as executing it.
+func c09NilReturnsPassNE(g *ssa.Function, ins []ssa.Instruction, nonEmpty map[*ssa.Parameter]bool) bool {
+	all := append([]ssa.Instruction{}, ins...)
+	for _, it := range c09ItersIn(g) {
+		if it.Loop == nil || it.Coll == nil {
+			continue
+		}
+		pf, i := c09ParamOf(it.Coll)
+		if pf != g || !nonEmpty[g.Params[i]] {
+			continue
+		}
+		b, bi := it.BodyStart()
+		if !it.ContinuesWithout(b, bi, newCut().Instr(ins...)) {
+			// the loop runs at least once: leaving it means an iteration was completed
+			for _, e := range it.Loop.Exits {
+				if e.From == it.Loop.Header && len(e.To.Instrs) > 0 {
+					all = append(all, e.To.Instrs[0])
+				}
+			}
+		}
+	}
+	return c09NilReturnsPass(g, all)
 }
 
 // c09NilReturnsPass: every return of g that may carry a nil error (every return,
@@ -527,4 +669,446 @@ func c09FieldRole(named *types.Named, role string) string {
 		}
 	}
 	return role
+}
+
+// ---------- source functions, range-over-func ----------
+
+// c09IsSourceFn: f corresponds to source code of the module: declared functions,
+// closures, generic instances and the synthesized bodies of range-over-func loops
+// (which FuncsOfPkg leaves out).
+func c09IsSourceFn(f *ssa.Function) bool {
+	return f.Synthetic == "" || strings.HasPrefix(f.Synthetic, "instance of") || c09IsYieldBody(f)
+}
+
+// c09IsYieldBody: f is the body of a `for … := range seq` loop over a function iterator.
+func c09IsYieldBody(f *ssa.Function) bool { return f != nil && f.Synthetic == "range-over-func yield" }
+
+// c09FuncsOfPkg = FuncsOfPkg plus the range-over-func bodies nested in them.
+func c09FuncsOfPkg(p *Prog, rel string) []*ssa.Function {
+	out := p.FuncsOfPkg(rel)
+	seen := map[*ssa.Function]bool{}
+	for _, f := range out {
+		seen[f] = true
+	}
+	for i := 0; i < len(out); i++ {
+		for _, a := range out[i].AnonFuncs {
+			if !seen[a] && c09IsYieldBody(a) && len(a.Blocks) > 0 {
+				seen[a] = true
+				out = append(out, a)
+			}
+		}
+	}
+	return out
+}
+
+// c09Site is a place from which a function is entered, together with the
+// translation of values of the entered function's frame (parameters, captured
+// variables) into values of the frame the site lives in (nil: not expressible).
+type c09Site struct {
+	At ssa.Instruction
+	Tr func(v ssa.Value) ssa.Value
+}
+
+// c09Yielders resolves an iterator value (what `for … := range seq` ranges
+// over) to the closures that implement it: seq is the result of a call of an
+// in-module maker function that returns a closure (possibly through wrappers
+// `func tagRefs(m) iter.Seq2 { return selectRefs(m, false) }`).  For each
+// closure the translation of its captured variables / the makers' parameters
+// into the frame of the instruction that called the (outermost) maker.
+type c09Yielder struct {
+	Fn *ssa.Function               // func(yield) { … }
+	Tr func(v ssa.Value) ssa.Value // producer frame -> frame of the maker call
+}
+
+func c09Yielders(seq ssa.Value, depth int) []c09Yielder {
+	var out []c09Yielder
+	if depth > 3 {
+		return nil
+	}
+	for _, rt := range Roots(c09Resolved(seq)) {
+		switch u := rt.(type) {
+		case *ssa.MakeClosure:
+			fn := u.Fn.(*ssa.Function)
+			mc := u
+			out = append(out, c09Yielder{fn, func(v ssa.Value) ssa.Value {
+				// a captured variable read inside the closure: the value bound at creation
+				r := c09Resolved(v)
+				if ld, ok := strip(v).(*ssa.UnOp); ok {
+					if fv, ok := ld.X.(*ssa.FreeVar); ok && fv.Parent() == fn {
+						for i, f := range fn.FreeVars {
+							if f == fv {
+								if a, isAlloc := mc.Bindings[i].(*ssa.Alloc); isAlloc {
+									if st := storesTo(a); len(st) == 1 {
+										return st[0].Val
+									}
+								}
+							}
+						}
+					}
+				}
+				if in, ok := r.(ssa.Instruction); ok && in.Parent() == mc.Parent() {
+					return r
+				}
+				if prm, ok := r.(*ssa.Parameter); ok && prm.Parent() == mc.Parent() {
+					return r
+				}
+				return nil
+			}})
+		case *ssa.Call:
+			g := StaticCallee(u)
+			if g == nil || !inModule(g) || len(g.Blocks) == 0 {
+				continue
+			}
+			args := u.Call.Args
+			for _, a := range RetAtoms(g, 0) {
+				for _, y := range c09Yielders(a.Val, depth+1) {
+					inner := y.Tr
+					out = append(out, c09Yielder{y.Fn, func(v ssa.Value) ssa.Value {
+						w := inner(v) // value in g's frame
+						if w == nil {
+							return nil
+						}
+						if pf, i := c09ParamOf(w); pf == g && i < len(args) {
+							return args[i]
+						}
+						if _, isConst := w.(*ssa.Const); isConst {
+							return w
+						}
+						return nil
+					}})
+				}
+			}
+		}
+	}
+	return out
+}
+
+// c09YieldCalls: the calls of the yield parameter inside a producer closure.
+func c09YieldCalls(producer *ssa.Function) []*ssa.Call {
+	var out []*ssa.Call
+	if len(producer.Params) == 0 {
+		return nil
+	}
+	yield := producer.Params[len(producer.Params)-1]
+	AllInstrs(producer, func(in ssa.Instruction) {
+		if call, ok := in.(*ssa.Call); ok && !call.Call.IsInvoke() && call.Call.Value == ssa.Value(yield) {
+			out = append(out, call)
+		}
+	})
+	return out
+}
+
+// c09RangeFuncCall: in.(*ssa.Call) invokes an iterator with a range-over-func body.
+func c09RangeFuncCall(in ssa.Instruction) (seq ssa.Value, body *ssa.Function, ok bool) {
+	call, isCall := in.(*ssa.Call)
+	if !isCall || call.Call.IsInvoke() || len(call.Call.Args) != 1 {
+		return nil, nil, false
+	}
+	mc, isMC := call.Call.Args[0].(*ssa.MakeClosure)
+	if !isMC || !c09IsYieldBody(mc.Fn.(*ssa.Function)) {
+		return nil, nil, false
+	}
+	return call.Call.Value, mc.Fn.(*ssa.Function), true
+}
+
+// c09SitesOf: where fn is entered from.
+//   - named unexported function: its static call sites (closed world);
+//   - range-over-func body: the yield calls of the producers of the iterator it is passed to
+//     (parameters = the yielded values);
+//   - closure called directly where it is created, or immediately applied;
+//   - producer closure returned by a maker: the places where the maker's result is invoked.
+//
+// closed is false when some entry cannot be seen.
+func c09SitesOf(p *Prog, fn *ssa.Function) (sites []c09Site, closed bool) {
+	if fn.Parent() == nil {
+		cs, ok := c09CallSites(p, fn)
+		for _, c := range cs {
+			args := c.Common().Args
+			sites = append(sites, c09Site{c.(ssa.Instruction), func(v ssa.Value) ssa.Value {
+				if pf, i := c09ParamOf(v); pf == fn && i < len(args) {
+					return args[i]
+				}
+				return nil
+			}})
+		}
+		return sites, ok
+	}
+	closed = true
+	parent := fn.Parent()
+	AllInstrs(parent, func(in ssa.Instruction) {
+		mc, ok := in.(*ssa.MakeClosure)
+		if !ok || mc.Fn != fn {
+			return
+		}
+		for _, ref := range *mc.Referrers() {
+			switch u := ref.(type) {
+			case *ssa.DebugRef:
+			case ssa.CallInstruction:
+				cc := u.Common()
+				if cc.Value == ssa.Value(mc) { // called where created
+					args := cc.Args
+					sites = append(sites, c09Site{u.(ssa.Instruction), func(v ssa.Value) ssa.Value {
+						if pf, i := c09ParamOf(v); pf == fn && i < len(args) {
+							return args[i]
+						}
+						if r := c09Resolved(v); r != v {
+							return r
+						}
+						return nil
+					}})
+					continue
+				}
+				if seq, body, isRF := c09RangeFuncCall(u.(ssa.Instruction)); isRF && body == fn {
+					ys := c09Yielders(seq, 0)
+					if len(ys) == 0 {
+						closed = false
+					}
+					for _, y := range ys {
+						for _, yc := range c09YieldCalls(y.Fn) {
+							yargs := yc.Call.Args
+							sites = append(sites, c09Site{yc, func(v ssa.Value) ssa.Value {
+								if pf, i := c09ParamOf(v); pf == fn && i < len(yargs) {
+									return yargs[i]
+								}
+								return nil
+							}})
+						}
+					}
+					continue
+				}
+				closed = false // handed to something else
+			case *ssa.Return:
+				// a producer: entered wherever the maker's result is invoked
+				makerSites, ok := c09CallSites(p, parent)
+				if !ok {
+					closed = false
+				}
+				for _, ms := range makerSites {
+					v := ms.Value()
+					if v == nil {
+						closed = false
+						continue
+					}
+					margs := ms.Common().Args
+					for _, use := range *v.Referrers() {
+						uc, isCall := use.(*ssa.Call)
+						if !isCall || uc.Call.Value != v {
+							if _, isDbg := use.(*ssa.DebugRef); !isDbg {
+								closed = false
+							}
+							continue
+						}
+						sites = append(sites, c09Site{uc, func(x ssa.Value) ssa.Value {
+							r := c09Resolved(x) // captured variable of the producer -> value in the maker
+							if pf, i := c09ParamOf(r); pf == parent && i < len(margs) {
+								return margs[i]
+							}
+							return nil
+						}})
+					}
+				}
+			default:
+				closed = false
+			}
+		}
+	})
+	if len(sites) == 0 {
+		closed = false
+	}
+	return sites, closed
+}
+
+// ---------- iteration view ----------
+
+// c09Iter is one loop over a collection, whatever its form: a classic range
+// loop (Loop != nil, body = the loop's blocks in Fn) or a range-over-func loop
+// (Loop == nil, body = the yield closure Fn) over a standard adapter
+// (slices.Values/All, maps.Keys/Values/All) or an in-module iterator.
+type c09Iter struct {
+	Fn       *ssa.Function
+	Loop     *Loop
+	Stmt     ssa.Instruction // the loop statement in the enclosing function (range-func: the iterator invocation)
+	Coll     ssa.Value       // the collection ranged over, in the frame of Stmt (nil: unknown)
+	Key, Val ssa.Value       // per-iteration key / value in Fn (nil if not bound)
+	Producer *ssa.Function   // in-module producer closure (nil otherwise)
+	ProdIter *c09Iter        // the producer's own loop that yields (for selection tests made by the producer)
+	ProdTr   func(ssa.Value) ssa.Value
+}
+
+// InBody: in belongs to the loop body.
+func (it *c09Iter) InBody(in ssa.Instruction) bool {
+	if it.Loop != nil {
+		return in.Parent() == it.Fn && it.Loop.Contains(in)
+	}
+	return in.Parent() == it.Fn
+}
+
+// ContinuesWithout: some path from (b, idx) reaches the next iteration (the loop
+// header; for a range-func body a return that is not `return false`) without
+// hitting the cut.
+func (it *c09Iter) ContinuesWithout(b *ssa.BasicBlock, idx int, ct *cut) bool {
+	if it.Loop != nil {
+		return c08PathExists(b, idx, it.Loop.Header.Instrs[0], false, ct, nil)
+	}
+	for _, r := range Returns(it.Fn) {
+		if len(r.Results) == 1 {
+			if cst, ok := r.Results[0].(*ssa.Const); ok && cst.Value != nil && cst.Value.String() == "false" {
+				continue // break / early exit
+			}
+		}
+		if c08PathExists(b, idx, r, false, ct, nil) {
+			return true
+		}
+	}
+	return false
+}
+
+// BodyStart: where an iteration begins.
+func (it *c09Iter) BodyStart() (*ssa.BasicBlock, int) {
+	if it.Loop != nil {
+		if _, _, body, _, ok := it.Loop.RangeIndex(); ok {
+			return body.To, 0
+		}
+		if _, _, body, _, ok := it.Loop.RangeMap(); ok {
+			return body.To, 0
+		}
+		return it.Loop.Header, 0
+	}
+	return it.Fn.Blocks[0], 0
+}
+
+// c09ItersIn lists the loops whose statement is in fn.
+func c09ItersIn(fn *ssa.Function) []*c09Iter {
+	var out []*c09Iter
+	for _, l := range Loops(fn) {
+		if ranged, idx, _, _, ok := l.RangeIndex(); ok {
+			it := &c09Iter{Fn: fn, Loop: l, Stmt: l.Header.Instrs[0], Coll: ranged, Key: idx}
+			for _, ref := range *idx.Referrers() {
+				if ia, ok := ref.(*ssa.IndexAddr); ok && (c09SameKey(ia.X, ranged) || c09SameFieldLoad(ia.X, ranged)) {
+					for _, r2 := range *ia.Referrers() {
+						if ld, ok := r2.(*ssa.UnOp); ok && ld.Op == token.MUL {
+							it.Val = ld
+						}
+					}
+				}
+			}
+			out = append(out, it)
+		} else if ranged, next, _, _, ok := l.RangeMap(); ok {
+			it := &c09Iter{Fn: fn, Loop: l, Stmt: l.Header.Instrs[0], Coll: ranged}
+			for _, r := range *next.Referrers() {
+				if e, ok := r.(*ssa.Extract); ok {
+					if e.Index == 1 {
+						it.Key = e
+					} else if e.Index == 2 {
+						it.Val = e
+					}
+				}
+			}
+			out = append(out, it)
+		}
+	}
+	AllInstrs(fn, func(in ssa.Instruction) {
+		seq, body, ok := c09RangeFuncCall(in)
+		if !ok {
+			return
+		}
+		prm := func(i int) ssa.Value {
+			if i < len(body.Params) {
+				return body.Params[i]
+			}
+			return nil
+		}
+		if mk, isCall := c09Resolved(seq).(*ssa.Call); isCall && len(mk.Call.Args) >= 1 {
+			it := &c09Iter{Fn: body, Stmt: in, Coll: mk.Call.Args[0]}
+			switch CalleeName(mk) {
+			case "slices.Values", "maps.Values":
+				it.Val = prm(0)
+			case "maps.Keys":
+				it.Key = prm(0)
+			case "slices.All", "maps.All":
+				it.Key, it.Val = prm(0), prm(1)
+			default:
+				it = nil
+			}
+			if it != nil {
+				out = append(out, it)
+				return
+			}
+		}
+		for _, y := range c09Yielders(seq, 0) {
+			y := y
+			for _, yc := range c09YieldCalls(y.Fn) {
+				for _, pit := range c09ItersIn(y.Fn) {
+					if !pit.InBody(yc) {
+						continue
+					}
+					it := &c09Iter{Fn: body, Stmt: in, Producer: y.Fn, ProdIter: pit, ProdTr: y.Tr}
+					if pit.Coll != nil {
+						it.Coll = y.Tr(pit.Coll)
+					}
+					for i, a := range yc.Call.Args {
+						if pit.Key != nil && c09SameKey(a, pit.Key) {
+							it.Key = prm(i)
+						}
+						if pit.Val != nil && (c09SameKey(a, pit.Val) || c09DescObjOf(pit.Val).vals[a]) {
+							it.Val = prm(i)
+						}
+					}
+					out = append(out, it)
+				}
+			}
+		}
+	})
+	return out
+}
+
+// c09CellStores: every store to the local variable behind addr (an Alloc, or a
+// free variable bound to one), in its function and in the closures that capture it.
+func c09CellStores(addr ssa.Value) []*ssa.Store {
+	var cell *ssa.Alloc
+	switch a := addr.(type) {
+	case *ssa.Alloc:
+		cell = a
+	case *ssa.FreeVar:
+		v := ssa.Value(a)
+		for depth := 0; depth < 4; depth++ {
+			fv, ok := v.(*ssa.FreeVar)
+			if !ok {
+				break
+			}
+			bs := freeVarBindings(fv)
+			if len(bs) == 0 {
+				return nil
+			}
+			v = bs[0]
+		}
+		cell, _ = v.(*ssa.Alloc)
+	}
+	if cell == nil {
+		return nil
+	}
+	var out []*ssa.Store
+	var visit func(x ssa.Value, depth int)
+	visit = func(x ssa.Value, depth int) {
+		if depth > 4 || x.Referrers() == nil {
+			return
+		}
+		for _, r := range *x.Referrers() {
+			switch u := r.(type) {
+			case *ssa.Store:
+				if u.Addr == x {
+					out = append(out, u)
+				}
+			case *ssa.MakeClosure:
+				fn := u.Fn.(*ssa.Function)
+				for i, b := range u.Bindings {
+					if b == x && i < len(fn.FreeVars) {
+						visit(fn.FreeVars[i], depth+1)
+					}
+				}
+			}
+		}
+	}
+	visit(cell, 0)
+	return out
 }
